@@ -127,7 +127,7 @@ _vbi_sampling_par_valid_log	(const vbi_sampling_par *sp,
 	}
 
 #if 2 == VBI_VERSION_MINOR
-	if (0 == sp->bytes_per_line)
+	if (sp->bytes_per_line <= 0)
 		goto no_samples;
 #else
 	if (0 == sp->samples_per_line)
